@@ -254,5 +254,159 @@ theorem row_eval (x : List (List α)) (nObjS : α) (S : Nat → List Nat) (n M i
   simp only
   rw [foldl_set_prefix _ row M (by omega), List.drop_eq_nil_of_le (by omega), List.append_nil]
 
+
+/-- a fold of point updates: the touched positions hold the new values, the others are unchanged -/
+theorem foldl_set_getD {β : Type} (g : Nat → β) (dflt : β) : ∀ (items : List Nat) (d : List β),
+    (items.foldl (fun d i => d.set i (g i)) d).length = d.length ∧
+    ∀ j, (items.foldl (fun d i => d.set i (g i)) d).getD j dflt =
+      if j ∈ items ∧ j < d.length then g j else d.getD j dflt
+  | [], d => by simp
+  | a :: t, d => by
+    simp only [List.foldl_cons]
+    obtain ⟨h1, h2⟩ := foldl_set_getD g dflt t (d.set a (g a))
+    refine ⟨by rw [h1, List.length_set], fun j => ?_⟩
+    rw [h2 j, List.length_set]
+    by_cases hjt : j ∈ t
+    · by_cases hjl : j < d.length
+      · simp [hjt, hjl]
+      · simp only [hjt, hjl, and_false, ↓reduceIte, List.mem_cons, or_true]
+        rw [List.getD_eq_getElem?_getD, List.getD_eq_getElem?_getD, List.getElem?_set]
+        by_cases haj : a = j
+        · subst haj; simp [hjl]
+        · simp [haj]
+    · simp only [hjt, false_and, ↓reduceIte, List.mem_cons, or_false]
+      rw [List.getD_eq_getElem?_getD, List.getElem?_set]
+      by_cases haj : a = j
+      · subst haj
+        by_cases hjl : a < d.length
+        · simp [hjl]
+        · simp [hjl, List.getD_eq_getElem?_getD]
+      · have : ¬ j = a := fun h => haj h.symm
+        simp [haj, this, List.getD_eq_getElem?_getD]
+
+/-- the row of gaps of point `i` in the columns `S` -/
+def rowOf (x : List (List α)) (nObjS : α) (S : Nat → List Nat) (M i : Nat) : List (Ext α) :=
+  (List.range M).map fun m => Ext.fin ((xAt x (nextOf (S m) i) m - xAt x (prevOf (S m) i) m) / nObjS)
+
+/-- `c_calc_pcd_iter`: every item gets its row of gaps, the flag survives -/
+theorem iter_eval (x : List (List α)) (nObjS : α) (S : Nat → List Nat) (n M : Nat) (ok : Bool) (hx : x.length = n) :
+    ∀ (items : List Nat) (dmat : List (List (Ext α))),
+    (∀ i, i < dmat.length → (dmat.getD i []).length = M) →
+    (∀ i ∈ items, i < dmat.length ∧ ∀ m, m < M →
+      (S m).Nodup ∧ (S m).length ≤ n ∧ (∀ j ∈ S m, j < n) ∧ i ∈ S m ∧ Interior (S m) i) →
+    pcdIter x nObjS ((List.range M).map fun m => padLast (S m) n) items (dmat, ok) =
+      (items.foldl (fun dm i => dm.set i (rowOf x nObjS S M i)) dmat, ok)
+  | [], dmat, _, _ => rfl
+  | a :: t, dmat, hrows, hitems => by
+    unfold pcdIter
+    simp only [List.foldl_cons]
+    obtain ⟨ha, hS⟩ := hitems a (by simp)
+    have hrow := row_eval x nObjS S n M a (dmat.getD a []) ok (hrows a ha) hx hS
+    rw [hrow]
+    have := iter_eval x nObjS S n M ok hx t (dmat.set a (rowOf x nObjS S M a))
+      (by
+        intro i hi
+        rw [List.length_set] at hi
+        rw [List.getD_eq_getElem?_getD, List.getElem?_set]
+        by_cases hai : a = i
+        · subst hai; simp [ha, rowOf]
+        · simp only [hai, ↓reduceIte]
+          rw [← List.getD_eq_getElem?_getD]; exact hrows i hi)
+      (by
+        intro i hi
+        rw [List.length_set]
+        exact hitems i (List.mem_cons_of_mem _ hi))
+    unfold pcdIter at this
+    exact this
+
+theorem mem_insertSorted (x j : Nat) : ∀ (l : List Nat), j ∈ insertSorted x l ↔ j = x ∨ j ∈ l
+  | [] => by simp [insertSorted]
+  | y :: ys => by
+    unfold insertSorted
+    split
+    · simp
+    · split
+      · rename_i h1 h2; subst h2; simp
+      · simp only [List.mem_cons, mem_insertSorted x j ys]
+        tauto
+
+theorem padLast_getD_mem (s : List Nat) (n q : Nat) (hs : s ≠ []) (hn : s.length ≤ n) (hq : q < n) :
+    (padLast s n).getD q 0 ∈ s := by
+  have hpos : 0 < s.length := List.length_pos_iff.mpr hs
+  rcases Nat.lt_or_ge q s.length with h | h
+  · rw [padLast_getD_lt s n q h]; exact getD_mem s q h
+  · rw [padLast_getD_ge s n q h hq, getLastD_eq s hpos]; exact getD_mem s _ (by omega)
+
+/-- `c_get_calc_items` on one padded column in which `k` is interior -/
+theorem scan_col (s : List Nat) (n k : Nat) (acc : List Nat × Bool) (hs : s.Nodup) (hlen : s.length ≤ n)
+    (hk : k ∈ s) (hint : Interior s k) :
+    pcdScanCol k (padLast s n).length 0 (padLast s n) acc =
+      (padLast (s.filter (· != k)) n,
+        (insertSorted (prevOf s k) (insertSorted (nextOf s k) acc.1), acc.2)) := by
+  have hp := List.idxOf_lt_length_iff.mpr hk
+  obtain ⟨h0, h1⟩ := hint
+  have hL := padLast_length s n hlen
+  have hshift : shiftAt (padLast s n) (s.idxOf k) = padLast (s.filter (· != k)) n := by
+    rw [shiftAt_padLast s n _ h1 hlen, filter_ne_eq_eraseIdx s hs k hk]
+  have hlen' : (s.filter (· != k)).length = s.length - 1 := by
+    rw [filter_ne_eq_eraseIdx s hs k hk]; exact List.length_eraseIdx_of_lt hp
+  have hne' : s.filter (· != k) ≠ [] := by
+    intro h; rw [h] at hlen'; simp at hlen'; omega
+  have key := scan_find k (s.idxOf k) (padLast s n) acc (by rw [hL]; omega)
+    (by rw [padLast_getD_lt s n _ hp, getD_of_lt s _ hp]; exact List.getElem_idxOf hp)
+    (by
+      intro q hq heq
+      rw [padLast_getD_lt s n q (by omega), getD_of_lt s q (by omega)] at heq
+      have := idxOf_getElem_nodup s hs q (by omega)
+      rw [heq] at this; omega)
+    (by
+      intro q hq1 hq2 heq
+      rw [hshift] at heq
+      rw [hL] at hq2
+      have hm := padLast_getD_mem (s.filter (· != k)) n q hne' (by rw [hlen']; omega) hq2
+      rw [heq] at hm
+      simp at hm)
+    (s.idxOf k) 0 (padLast s n).length (by omega) (by omega)
+  rw [key, hshift]
+  have e1 : (padLast s n).getD (s.idxOf k + 1) 0 = nextOf s k := padLast_getD_lt s n _ h1
+  have e2 : (padLast s n).getD (s.idxOf k - 1) 0 = prevOf s k := padLast_getD_lt s n _ (by omega)
+  rw [e1, e2, hL]
+  have : decide (0 < s.idxOf k ∧ s.idxOf k + 1 < n) = true := by
+    simp only [decide_eq_true_eq]; exact ⟨h0, by omega⟩
+  rw [this, Bool.and_true]
+
+/-- `c_get_calc_items`: all columns -/
+theorem getCalcItems_eval (S : Nat → List Nat) (n k : Nat) : ∀ (ms : List Nat) (cs : List (List Nat)) (its : List Nat) (ok : Bool),
+    (∀ m ∈ ms, (S m).Nodup ∧ (S m).length ≤ n ∧ k ∈ S m ∧ Interior (S m) k) →
+    ∃ its', (ms.map fun m => padLast (S m) n).foldl (fun acc col =>
+        let r := pcdScanCol k col.length 0 col acc.2
+        (acc.1 ++ [r.1], r.2)) (cs, (its, ok)) =
+      (cs ++ ms.map (fun m => padLast ((S m).filter (· != k)) n), (its', ok)) ∧
+      ∀ j, j ∈ its' ↔ j ∈ its ∨ ∃ m ∈ ms, j = prevOf (S m) k ∨ j = nextOf (S m) k
+  | [], cs, its, ok, _ => ⟨its, by simp, by simp⟩
+  | a :: t, cs, its, ok, h => by
+    obtain ⟨a1, a2, a3, a4⟩ := h a (by simp)
+    simp only [List.map_cons, List.foldl_cons]
+    rw [scan_col (S a) n k (its, ok) a1 a2 a3 a4]
+    obtain ⟨its', e, hmem⟩ := getCalcItems_eval S n k t (cs ++ [padLast ((S a).filter (· != k)) n])
+      (insertSorted (prevOf (S a) k) (insertSorted (nextOf (S a) k) its)) ok
+      (fun m hm => h m (List.mem_cons_of_mem _ hm))
+    refine ⟨its', ?_, ?_⟩
+    · rw [e]; simp [List.append_assoc]
+    · intro j
+      rw [hmem j, mem_insertSorted, mem_insertSorted]
+      simp only [List.mem_cons, exists_eq_or_imp]
+      constructor
+      · rintro ((h1 | h1 | h1) | h1)
+        · exact Or.inr (Or.inl (Or.inl h1))
+        · exact Or.inr (Or.inl (Or.inr h1))
+        · exact Or.inl h1
+        · exact Or.inr (Or.inr h1)
+      · rintro (h1 | (h1 | h1) | h1)
+        · exact Or.inl (Or.inr (Or.inr h1))
+        · exact Or.inl (Or.inl h1)
+        · exact Or.inl (Or.inr (Or.inl h1))
+        · exact Or.inr h1
+
 end C13
 end Pymoode
